@@ -10,6 +10,7 @@ import Nq.Lemmas.C17Smtp
 import Nq.Lemmas.C17Envelope
 import Nq.Lemmas.C17Unparse
 import Nq.Lemmas.C17Group
+import Nq.Lemmas.C17Rewrite
 
 namespace Nq.Props.C17
 open Nq Nq.Quote Nq.Token822 Nq.SmtpAddr Nq.Inject Nq.Spec.Addr Nq.Spec.Lex822 Nq.Lemmas.C17
@@ -377,6 +378,85 @@ theorem C17_rewrite_strings (c : RwCfg) (s : Bytes) (r pt : List Tok)
     rw [C17_rewrite_plusdomain c s r pt hat hlast h1 h2 h3]
     simp [addrString, unquote_append, unquote, unqTok]
 
+/-- **The token-level rewriting IS the documented string-level rewriting** (`Spec.Addr.rewriteMailbox`, written
+from qmail-header(5) / qmail-inject(8) independently of the token model; it is what the harness oracle
+compares the real envelope with).  For a mailbox `local@host` — local part ANY non-empty token list not
+beginning with `@` (so not a source route), host a dot-atom of legal atoms ending in an atom — and
+control values whose tokens unquote to `.defaultdomain` / `.plusdomain` (`C17_control_tokens`): the string
+qmail-inject appends to its recipient list is `local@qualifyHost host`: a host ending in `+` loses the plus
+and gets `.plusdomain`, else a dotted host is unchanged, else `.defaultdomain` is appended. -/
+theorem C17_rewrite_spec (c : RwCfg) (sp : RwSpec) (ls h0 pt : List Tok) (s : Bytes)
+    (hh : (h0 ++ [Tok.atom s]).all hostTok = true) (hne : ls ≠ []) (hroute : ls.head? ≠ some .at)
+    (hdd : unquote c.defaultdomain = DOT :: sp.defaultdomain)
+    (hpd : c.plusdomain = .dot :: pt) (hpt : ∀ t ∈ pt, t ≠ Tok.at) (hpu : unquote c.plusdomain = DOT :: sp.plusdomain) :
+    addrString (rwgeneric c ((h0 ++ [Tok.atom s]).reverse ++ .at :: ls.reverse))
+      = rewriteMailbox sp (unquote ls) (some (unquote (h0 ++ [Tok.atom s]))) := by
+  have e : (h0 ++ [Tok.atom s]).reverse ++ .at :: ls.reverse = .atom s :: (h0.reverse ++ .at :: ls.reverse) := by simp
+  have hat : (Tok.atom s :: (h0.reverse ++ .at :: ls.reverse)).contains .at = true := by simp
+  have hlast : (Tok.atom s :: (h0.reverse ++ .at :: ls.reverse)).getLast? ≠ some .at := by
+    cases ls with
+    | nil => exact absurd rfl hne
+    | cons t r =>
+      have ht : t ≠ .at := by simpa using hroute
+      have : (Tok.atom s :: (h0.reverse ++ .at :: (t :: r).reverse)) = (Tok.atom s :: (h0.reverse ++ .at :: r.reverse)) ++ [t] := by simp
+      rw [this, List.getLast?_concat]
+      simpa using ht
+  have h1 := rwgeneric_atomHost c s (h0.reverse ++ .at :: ls.reverse) hat hlast
+  have h2 := rw_host_strings c sp h0 s ls.reverse pt hh hdd hpd hpt hpu
+  rw [e] at h2 ⊢
+  rw [h1, h2]
+  simp [rewriteMailbox]
+
+/-- …a domain-literal host is left alone… -/
+theorem C17_rewrite_spec_literal (c : RwCfg) (sp : RwSpec) (ls : List Tok) (x : Bytes)
+    (hne : ls ≠ []) (hroute : ls.head? ≠ some .at) :
+    addrString (rwgeneric c (.literal x :: .at :: ls.reverse))
+      = rewriteMailbox sp (unquote ls) (some (LBRK :: (x ++ [RBRK]))) := by
+  have hlast : (Tok.literal x :: .at :: ls.reverse).getLast? ≠ some .at := by
+    cases ls with
+    | nil => exact absurd rfl hne
+    | cons t r =>
+      have ht : t ≠ .at := by simpa using hroute
+      have : (Tok.literal x :: .at :: (t :: r).reverse) = (Tok.literal x :: .at :: r.reverse) ++ [t] := by simp
+      rw [this, List.getLast?_concat]
+      simpa using ht
+  have hq : qualifyHost sp (LBRK :: (x ++ [RBRK])) = LBRK :: (x ++ [RBRK]) := by simp [qualifyHost, LBRK]
+  have hres : rwgeneric c (.literal x :: .at :: ls.reverse) = .literal x :: .at :: ls.reverse := by
+    cases x with
+    | nil => simp [rwgeneric]
+    | cons b x =>
+      have hlast' : (Tok.at :: ls.reverse).getLast? ≠ some Tok.at := by simpa using hlast
+      simp [rwgeneric, rwroute, hlast', rwextradot, rwextraat, rwnoat, rwplus, rwnodot, beforeAt, isLiteral]
+  rw [hres]
+  simp [addrString, rewriteMailbox, hq, unquote_append, unquote, unqTok, AT]
+
+/-- …and a lone box name (no `@`, not ending in a dot) gets `@defaulthost`, qualified by the same rules. -/
+theorem C17_rewrite_spec_nohost (c : RwCfg) (sp : RwSpec) (ls d0 pt : List Tok) (s : Bytes)
+    (hdh : c.defaulthost = .at :: (d0 ++ [Tok.atom s])) (hh : (d0 ++ [Tok.atom s]).all hostTok = true)
+    (hdu : unquote (d0 ++ [Tok.atom s]) = sp.defaulthost)
+    (hne : ls ≠ []) (hno : Tok.at ∉ ls) (hdot : ls.getLast? ≠ some .dot)
+    (hdd : unquote c.defaultdomain = DOT :: sp.defaultdomain)
+    (hpd : c.plusdomain = .dot :: pt) (hpt : ∀ t ∈ pt, t ≠ Tok.at) (hpu : unquote c.plusdomain = DOT :: sp.plusdomain) :
+    addrString (rwgeneric c ls.reverse) = rewriteMailbox sp (unquote ls) none := by
+  obtain ⟨t, r, hr⟩ : ∃ t r, ls.reverse = t :: r := by
+    cases h : ls.reverse with
+    | nil => simp at h; exact absurd h hne
+    | cons t r => exact ⟨t, r, rfl⟩
+  have ht : t ≠ .dot := by
+    intro e
+    have : ls.getLast? = some t := by
+      have : ls = r.reverse ++ [t] := by
+        have := congrArg List.reverse hr; simpa using this
+      rw [this, List.getLast?_concat]
+    exact hdot (by rw [this, e])
+  have hno' : (t :: r).contains .at = false := by
+    rw [← hr]; simpa using hno
+  have h1 := C17_rewrite_defaulthost c t r hno' ht
+  have e : c.defaulthost.reverse ++ (t :: r) = (d0 ++ [Tok.atom s]).reverse ++ .at :: ls.reverse := by
+    rw [hdh, hr]; simp
+  rw [hr, h1, e, rw_host_strings c sp d0 s ls.reverse pt hh hdd hpd hpt hpu, hdu]
+  simp [rewriteMailbox]
+
 /-- **Sane control values parse to what the rewriting theorems assume**: for a `defaultdomain`/`plusdomain`
 value `d` of unquoted-safe bytes, `token822_parse("." d)` (what `getcontrols` stores) is a DOT followed by
 tokens without '@', and unquotes to `.d`; likewise `"@" d` for `defaulthost`. -/
@@ -534,5 +614,11 @@ and parses back -/
 example : unparse 3 [.atom [97], .comma, .atom [98], .comma, .atom [99]] = [97, 44, 10, 32, 32, 98, 44, 10, 32, 32, 99, 10] := by decide
 example : unparse 80 [.atom [97], .comma, .atom [98], .comma, .atom [99]] = [97, 44, 32, 98, 44, 32, 99, 10] := by decide
 example : parse [97, 44, 10, 32, 32, 98, 44, 10, 32, 32, 99, 10] = some [.atom [97], .comma, .atom [98], .comma, .atom [99]] := by decide
+
+/-- `u@h` with defaultdomain `d`: tokens of host `h` are a legal dot-atom host; result `u@h.d` -/
+example : ([] ++ [Tok.atom [104]]).all hostTok = true := by decide
+example : addrString (rwgeneric { defaulthost := [.at, .atom [104]], defaultdomain := [.dot, .atom [100]], plusdomain := [.dot, .atom [112]] }
+      [.atom [104], .at, .atom [117]]) = [117, 64, 104, 46, 100] := by decide
+example : rewriteMailbox { defaulthost := [104], defaultdomain := [100], plusdomain := [112] } [117] (some [104]) = [117, 64, 104, 46, 100] := by decide
 
 end Nq.Props.C17
